@@ -571,3 +571,81 @@ def Sreach_least(V, e, q0, Sg, P):
     sing = Store(z3.K(Atom, False), q0, True)
     return Implies(And(P(Eclo(V, e, sing)), ForAll([Sx, a], Implies(And(P(Sx), Select(Sg, a)), P(Eclo(V, e, move(V, Sx, a)))))),
                    ForAll([Sx], Implies(Sreach(V, e, q0, Sg, Sx), P(Sx))))
+
+
+# ====================================================================== PDAs (Sipser style, acceptance by final state)
+PDAs = sort_of(REC('PDA')); CFGt = REC('PDAState'); Conf = sort_of(CFGt); _pc = parts(CFGt)     # _pc[1] = mk, _pc[2] = q, _pc[3] = stack
+SetC = sort_of(SET(CFGt))
+_T2 = TUP(ATOM, ATOM); _t2 = parts(_T2)
+
+
+def canpop(stack, u, eps): return Or(u == eps, And(Not(Word.is_nil(stack)), Word.last(stack) == u))
+def poppush(stack, u, v, eps):
+    base = If(u == eps, stack, Word.init(stack))
+    return If(v == eps, base, Word.snoc(base, v))
+
+
+def pstep(P, c, a, c2):
+    """c --a--> c2 is one transition of P (a may be P.epsilon): exactly can-pop-push / pop-push of the definition"""
+    dl = rec_get(P, 'delta'); dom, val = map_dom(dl), map_val(dl); eps = rec_get(P, 'epsilon').z
+    u, q, v = fresh_z('u', Atom), fresh_z('q', Atom), fresh_z('v', Atom)
+    k = mkKey3(_pc[2](c), a, u)
+    return Exists([u, q, v], And(Select(dom, k), Select(Select(val, k), _t2[1](q, v)), canpop(_pc[3](c), u, eps), c2 == _pc[1](q, poppush(_pc[3](c), u, v, eps))))
+
+
+EcloP = Function('EcloP', PDAs, SetC, SetC)                  # closure under epsilon steps (least fixpoint; may be infinite)
+stepsetP = Function('stepsetP', PDAs, SetC, Atom, SetC)
+reachP = Function('reachP', PDAs, Word, SetC)
+_Pp = Const('Pp', PDAs); _Rc = Const('Rc', SetC); _c1, _c2 = Consts('c1 c2', Conf)
+_Psv = SV(REC('PDA'), _Pp)
+axiom('pda', 'lfp', 'EcloP-seed', ForAll([_Pp, _Rc, _c1], Implies(Select(_Rc, _c1), Select(EcloP(_Pp, _Rc), _c1))))
+axiom('pda', 'lfp', 'EcloP-step', ForAll([_Pp, _Rc, _c1, _c2], Implies(And(Select(EcloP(_Pp, _Rc), _c1), pstep(_Psv, _c1, rec_get(_Psv, 'epsilon').z, _c2)), Select(EcloP(_Pp, _Rc), _c2)),
+                                        patterns=[z3.MultiPattern(Select(EcloP(_Pp, _Rc), _c1), Select(EcloP(_Pp, _Rc), _c2))]))
+axiom('pda', 'def', 'stepsetP', ForAll([_Pp, _Rc, _a, _c2], Select(stepsetP(_Pp, _Rc, _a), _c2) == Exists([_c1], And(Select(_Rc, _c1), pstep(_Psv, _c1, _a, _c2)))))
+axiom('pda', 'def', 'reachP-nil', ForAll([_Pp], reachP(_Pp, Word.nil) == EcloP(_Pp, Store(z3.K(Conf, False), _pc[1](rec_get(_Psv, 'q0').z, Word.nil), True))))
+axiom('pda', 'def', 'reachP-snoc', ForAll([_Pp, _w, _a], reachP(_Pp, Word.snoc(_w, _a)) == EcloP(_Pp, stepsetP(_Pp, reachP(_Pp, _w), _a))))
+
+
+def EcloP_least(P, R, Tt):
+    c1, c2 = fresh_z('c1', Conf), fresh_z('c2', Conf)
+    return Implies(And(ForAll([c1], Implies(Select(R, c1), Select(Tt, c1))),
+                       ForAll([c1, c2], Implies(And(Select(Tt, c1), pstep(P, c1, rec_get(P, 'epsilon').z, c2)), Select(Tt, c2)))),
+                   ForAll([c1], Implies(Select(EcloP(P.z, R), c1), Select(Tt, c1))))
+
+
+@spec('canpop')
+def s_canpop(ev, P, stack, u): return SV(BOOL, canpop(stack.z, u.z, rec_get(P, 'epsilon').z))
+@spec('poppush')
+def s_poppush(ev, P, stack, u, v): return SV(WORD, poppush(stack.z, u.z, v.z, rec_get(P, 'epsilon').z))
+@spec('pstep')
+def s_pstep(ev, P, c, a, c2): return SV(BOOL, pstep(P, c.z, a.z, c2.z))
+@spec('EcloP')
+def s_EcloP(ev, P, R): return SV(SET(CFGt), EcloP(P.z, R.z))
+@spec('EcloP_least')
+def s_EcloP_least(ev, P, R, Tt): return SV(BOOL, EcloP_least(P, R.z, Tt.z))
+@spec('stepsetP')
+def s_stepsetP(ev, P, R, a): return SV(SET(CFGt), stepsetP(P.z, R.z, a.z))
+@spec('reachP')
+def s_reachP(ev, P, w): return SV(SET(CFGt), reachP(P.z, w.z))
+@spec('pda_accepts')
+def s_pda_accepts(ev, P, w):
+    c = fresh_z('c', Conf)
+    return SV(BOOL, Exists([c], And(Select(reachP(P.z, w.z), c), Select(rec_get(P, 'F').z, _pc[2](c)))))
+@spec('fin')
+def s_fin(ev, Sx):
+    from . import sets as S
+    return SV(BOOL, S.fin(Sx))
+@spec('card')
+def s_card(ev, Sx):
+    from . import sets as S
+    return S.card(Sx)
+@spec('card_strict_subset')
+def s_card_strict(ev, a, b, x):
+    from . import sets as S
+    return SV(BOOL, S.card_strict_subset(a, b, x))
+
+
+@spec('closure_limit')
+def s_closure_limit(ev): return SV(INT, z3.Const('GambaTools_pda_epsilon_closure_max_iterations', z3.IntSort()))
+axiom('pda', 'lemma', 'EcloP-mono', ForAll([_Pp, _Rc, Const('Rc2', SetC)], Implies(ForAll([_c1], Implies(Select(_Rc, _c1), Select(Const('Rc2', SetC), _c1))),
+                                                                              ForAll([_c1], Implies(Select(EcloP(_Pp, _Rc), _c1), Select(EcloP(_Pp, Const('Rc2', SetC)), _c1))))))
